@@ -212,13 +212,17 @@ def run(ctx):
         pid = k[0]
         e = exported[k]
         hdr = dict(probe=PROBES[pid], exp=expected(PROBES[pid]), hist=e["hist"], has_pred=True, pred_stale=e["stale"],
-                   pred_excs=e["excs"])
+                   pred_excs=e["excs"], relational=False)
         traces.append(dict(id=i + 1, hdr=hdr, after=enc_run(rec), fresh=fresh[pid]))
         meta[i + 1] = (pid, e)
         differs = [c for c in e["hist"] if any(c[x] != PROBES[pid][x] for x in d.DIMS) or c["out"] != "ok"]
         if differs:
             ctx.nontrivial.add(k)
     judge(ctx, traces, meta)
+    # harness validation: forked children vs brand-new interpreters on a few items (probe alone + longest histories)
+    pick = [0] + sorted(range(len(PROBES), len(items)), key=lambda j: (-len(items[j]["hist"]), j))[:ctx.pick(1, 5)]
+    ctx.coverage["fork_vs_fresh_interpreter_pairs"] = fork_equals_fresh_interpreter(
+        ctx, [items[j] for j in pick], [recs[j] for j in pick])
     n_sessions = sum(len(t["hdr"]["hist"]) + 1 for t in traces) + len(PROBES)
     samples = []
     for t in traces:
@@ -235,6 +239,41 @@ def run(ctx):
                 "shortest witness), completeness validated against TLC's count of distinct ProbeCall successors; non-trivial = "
                 "at least one earlier call that differs from the probe in a dimension or aborts; distinct by (probe, history)",
     })
+
+
+def spawn_item(item):
+    """the same item in a brand-new interpreter (cold import) - validates the fork shortcut"""
+    import subprocess
+    code = ("import sys, json; from harness.drivers import c11_session as d; "
+            "print('C11REC ' + json.dumps(d.run_item(json.loads(sys.argv[1]))))")
+    env = dict(os.environ)
+    p = subprocess.run([sys.executable, "-W", "ignore", "-c", code, json.dumps(item)], stdout=subprocess.PIPE,
+                       stderr=subprocess.PIPE, text=True, timeout=900, env=env, cwd=os.getcwd())
+    for line in p.stdout.splitlines():
+        if line.startswith("C11REC "):
+            return json.loads(line[7:])
+    raise Machinery("fresh interpreter failed: %s" % (p.stderr[-1500:],))
+
+
+def fork_equals_fresh_interpreter(ctx, items, recs):
+    """TLC compares the forked-child record of some items with the record of the same item run in a fresh
+    interpreter (every field class); a difference is a defect of the harness, not of jesse"""
+    from concurrent.futures import ThreadPoolExecutor
+    with ThreadPoolExecutor(max_workers=4) as ex:
+        spawned = list(ex.map(spawn_item, items))
+    traces = []
+    for i, (it, a, b) in enumerate(zip(items, recs, spawned)):
+        hdr = dict(probe=it["probe"], exp=expected(it["probe"]), hist=[], has_pred=False, pred_stale=[], pred_excs=[],
+                   relational=True)
+        ea, eb = enc_run(a), enc_run(b)
+        ea["hist_exc"], eb["hist_exc"] = [], []
+        traces.append(dict(id=i + 1, hdr=hdr, after=ea, fresh=eb))
+    verdicts, _ = tlc.validate_traces("TraceSession", "TraceSession.cfg", traces, ctx.sub("forkcheck"), parts=1)
+    for i, v in sorted(verdicts.items()):
+        if v[1] != "ok":
+            raise Machinery("a forked child does not behave like a fresh interpreter for %s: %s" % (
+                json.dumps(items[i - 1]["hist"]), v[1]))
+    return len(traces)
 
 
 def judge(ctx, traces, meta):
@@ -279,7 +318,7 @@ def replay(ctx, rp):
     for rec in recs:
         if isinstance(rec, tuple):
             raise Machinery("child failed: %s" % (rec[1][:1500],))
-    hdr = dict(probe=probe, exp=expected(probe), hist=p["hist"], has_pred=False, pred_stale=[], pred_excs=[])
+    hdr = dict(probe=probe, exp=expected(probe), hist=p["hist"], has_pred=False, pred_stale=[], pred_excs=[], relational=False)
     traces = [dict(id=1, hdr=hdr, after=enc_run(recs[1]), fresh=enc_run(recs[0]))]
     v = judge(ctx, traces, {1: (p.get("probe_id", "replay"), {"hist": p["hist"], "probe": probe})})
     print("replay verdict:", v[1])
